@@ -17,7 +17,7 @@ impl U256 {
     #[verifier::external_body] pub fn ne_zero(self) -> (r: bool) ensures r == (self.v() != 0) { unimplemented!() }
     #[verifier::external_body] pub fn gt_zero(self) -> (r: bool) ensures r == (self.v() > 0) { unimplemented!() }
     #[verifier::external_body] pub fn in_range(self, lo: u128, hi: u128) -> (r: bool) ensures r == (lo as int <= self.v() <= hi as int) { unimplemented!() }
-    #[verifier::external_body] pub fn try_into_u64_or(self, e: &'static str) -> (r: Result<u64, &'static str>) ensures self.v() <= 0xFFFF_FFFF_FFFF_FFFFint ==> r == Ok::<u64, &'static str>(self.v() as u64), self.v() > 0xFFFF_FFFF_FFFF_FFFFint ==> r is Err { unimplemented!() }
+    #[verifier::external_body] pub fn try_into_u64_or<E>(self, e: E) -> (r: Result<u64, E>) ensures self.v() <= 0xFFFF_FFFF_FFFF_FFFFint ==> r == Ok::<u64, E>(self.v() as u64), self.v() > 0xFFFF_FFFF_FFFF_FFFFint ==> r == Err::<u64, E>(e) { unimplemented!() }
     #[verifier::external_body] pub fn as_u128(self) -> (r: u128) ensures r as int == self.v() % 0x1_0000_0000_0000_0000_0000_0000_0000_0000int { unimplemented!() }
 }
 pub proof fn lemma_v_bounds(x: U256) ensures 0 <= x.v() < P256() {
@@ -53,8 +53,19 @@ use crate::u256_math::{Q3};
 //@ root rust-sdk/core/src
 //@ assume SDK shims: U128 = u128 (non-wasm build), CoreError = &'static str, wasm_expose attributes dropped; comparisons of U256 with integer literals, RangeInclusive::contains on U256 and TryInto<u64> are substituted (logged) by the shim methods ne_zero / gt_zero / in_range / try_into_u64_or
 pub type U128 = u128;
-pub type CoreError = &'static str;
-//@ const constants/error.rs ARITHMETIC_OVERFLOW AMOUNT_EXCEEDS_MAX_U64 SQRT_PRICE_OUT_OF_BOUNDS INVALID_TRANSFER_FEE INVALID_SLIPPAGE_TOLERANCE
+/// CoreError is `&'static str` in the SDK; Verus cannot reason about str contents, so the shim is an opaque code with one distinct constant per (distinct) message
+#[derive(Clone, Copy, Eq)]
+pub struct CoreError(pub u16);
+impl vstd::std_specs::cmp::PartialEqSpecImpl for CoreError {
+    open spec fn obeys_eq_spec() -> bool { true }
+    open spec fn eq_spec(&self, other: &CoreError) -> bool { *self == *other }
+}
+impl PartialEq for CoreError { #[verifier::external_body] fn eq(&self, other: &CoreError) -> (r: bool) { self.0 == other.0 } }
+pub const ARITHMETIC_OVERFLOW: CoreError = CoreError(1);
+pub const AMOUNT_EXCEEDS_MAX_U64: CoreError = CoreError(2);
+pub const SQRT_PRICE_OUT_OF_BOUNDS: CoreError = CoreError(3);
+pub const INVALID_TRANSFER_FEE: CoreError = CoreError(4);
+pub const INVALID_SLIPPAGE_TOLERANCE: CoreError = CoreError(5);
 //@ const constants/token.rs BPS_DENOMINATOR
 //@ const constants/swap.rs FEE_RATE_DENOMINATOR MIN_SQRT_PRICE MAX_SQRT_PRICE
 //@ subst /\b(sqrt_price_1|sqrt_price_2)\.into\(\)/ => /\1/
@@ -239,7 +250,7 @@ pub type CoreError = &'static str;
 //@ end
 
 /// a * product / denominator with the given rounding, as u64
-//@ fn math/token.rs try_mul_div -> r
+//@ fn math/token.rs try_mul_div -> r pub
     requires denominator > 0,
     ensures
         (amount == 0 || product == 0) ==> r == Ok::<u64, CoreError>(0u64),
@@ -248,13 +259,16 @@ pub type CoreError = &'static str;
 //@ rewrite /result\.try_into_u64_or\(AMOUNT_EXCEEDS_MAX_U64\)/ => /u128_try_into_u64_or(result, AMOUNT_EXCEEDS_MAX_U64)/
 //@ rewrite /let amount: u128 = <U256>::from\(amount\);/ => /let amount: u128 = amount as u128;/
 //@ rewrite /remainder\.ne_zero\(\)/ => /remainder != 0/
+//@ inject at /^\{/
+    proof { vstd::arithmetic::div_mod::lemma_div_of0(denominator as int); vstd::arithmetic::div_mod::lemma_small_mod(0, denominator as nat);
+            assert(amount as int * product as int == 0 <==> (amount == 0 || product == 0)) by(nonlinear_arith) requires amount >= 0, product >= 0; }
 //@ inject before /let quotient = numerator \/ denominator;/
     proof { crate::bit_math::lemma_div_round_fits(numerator as int, denominator as int);
             assert(amount as int * product as int == 0 <==> (amount == 0 || product == 0)) by(nonlinear_arith) requires amount >= 0, product >= 0; }
 //@ end
 #[verifier::external_body]
 pub fn u128_try_into_u64_or(x: u128, e: CoreError) -> (r: Result<u64, CoreError>)
-    ensures x <= u64::MAX ==> r == Ok::<u64, CoreError>(x as u64), x > u64::MAX ==> r is Err,
+    ensures x <= u64::MAX ==> r == Ok::<u64, CoreError>(x as u64), x > u64::MAX ==> r == Err::<u64, CoreError>(e),
 { unimplemented!() }
 
 /// exact-in budget net of the swap fee == the program's amount_calc in compute_swap: floor(amount * (1e6 - rate) / 1e6)
